@@ -89,3 +89,18 @@ CASES += [
         ("quantarhei/qm/liouvillespace/liouvillian.py", "class Liouvillian(SuperOperator):",
          "class FreeEvolution:\n    def __init__(self, ham, time):\n        self.ham = ham\n        self.time = time\n    def phases(self):\n        import numpy\n        from ...core.managers import energy_units\n        with energy_units(\"int\"):\n            en = numpy.diag(self.ham.data)\n        return numpy.exp(-1j*en[None, :]*self.time.data[:, None])\n\n\nclass Liouvillian(SuperOperator):", 1)]},
 ]
+
+MOL = "quantarhei/builders/molecules.py"
+CASES += [
+    m("transition width returned as stored (the repaired defect)", "C05-U10", MOL,
+      "        return self.convert_energy_2_current_u(\n                               self.widths[transition[0], transition[1]])",
+      "        return self.widths[transition[0], transition[1]]"),
+    m("adiabatic coupling returned through a local, unconverted", "C05-U10", MOL,
+      "        return self.convert_energy_2_current_u(\n                self.adiabatic_coupling[self.triangle.locate(state1,state2)])",
+      "        val = self.adiabatic_coupling[self.triangle.locate(state1,state2)]\n        return val"),
+    {"name": "aggregate reads the monomer widths outside internal units while it is built", "kind": "mutant", "rule": "C05-U10", "edits": [
+        ("quantarhei/builders/aggregate_base.py", "        with energy_units(\"int\"):\n            self._build(", "        if True:\n            self._build(", 1)]},
+    t("transition width converted by the manager", MOL,
+      "        return self.convert_energy_2_current_u(\n                               self.widths[transition[0], transition[1]])",
+      "        wd = Manager().convert_energy_2_current_u(self.widths[transition[0], transition[1]])\n        return wd"),
+]
